@@ -67,6 +67,7 @@ def main() -> int:
     ap.add_argument("--jobs", type=int, default=min(16, os.cpu_count() or 4))
     ap.add_argument("--write", action="store_true")
     ap.add_argument("--only", default=None, help="regex on the experiment name")
+    ap.add_argument("--own", action="store_true", help="seeded experiments: run only the check of the property the change breaks")
     ap.add_argument("--props", default=None, help="comma-separated properties to run (default all 20); a quick regression after a rule change")
     args = ap.parse_args()
     kinds = [k for k in ("seeded", "benign") if getattr(args, k)] or ["seeded", "benign"]
@@ -83,7 +84,7 @@ def main() -> int:
             for i in range(0, len(names), 20):
                 chunk = names[i:i + 20]
                 trees = {n: build(kind, n, root) for n in chunk}
-                jobs = [(n, p) for n in chunk if trees[n] for p in props]
+                jobs = [(n, p) for n in chunk if trees[n] for p in ([n.split('_')[0]] if args.own and kind == 'seeded' else props)]
                 with ThreadPoolExecutor(args.jobs) as ex:
                     outs = list(ex.map(lambda np_: run_check(trees[np_[0]], np_[1]), jobs))
                 for (n, p), (rc, fired) in zip(jobs, outs):
@@ -110,7 +111,7 @@ def main() -> int:
                             bad += 1
                             print(f"ALARM benign/{n}: {p} exit {r['exit']} {r['fired']}")
             print(f"{kind}: {len(summary)} experiments, {len(props) * len(summary)} check runs")
-            if args.write and not args.props:
+            if args.write and not args.props and not args.own:
                 compact = {n: {p: r for p, r in res.items() if r["exit"] != 0} for n, res in summary.items()}
                 json.dump(compact, open(os.path.join(VERIF, kind, "SUMMARY.json"), "w"), indent=1, sort_keys=True)
     finally:
